@@ -222,7 +222,7 @@ Definition rev_fp_step (p : params) (k : calc) (c : conn) (minw : Z) (exitc : op
         if (k_dep k =? -1) ||
            match accrow with Some ar => c_dep c - fp_time ar - minw >=? k_dep k | None => false end
         then
-          if (k_dep k =? -1) || (q_maxfw p <? minw) ||
+          if (k_dep k =? -1) || (q_maxfw p <=? 0) ||
              match accrow with Some ar => c_dep c - k_dep k - fp_time ar <=? q_maxfw p | None => false end
           then upd acc m (Some (mk_js (Some c) exitc (c_trip c) 0 true 0))
           else acc
